@@ -78,6 +78,10 @@ func genBytes(rng *rand.Rand, maxLen int) []byte {
 			}
 		case 10:
 			b = append(b, '_')
+		case 12:
+			// any byte at all (control characters included: a byte test written with bit tricks goes wrong on values no
+			// hand-picked alphabet contains)
+			b = append(b, byte(rng.Intn(256)))
 		case 11:
 			// the edges of the three word-character ranges and their outer neighbours
 			b = append(b, "azAZ09`{@[/:"[rng.Intn(12)])
